@@ -38,7 +38,8 @@ impl ConfigFile {
             if !line.is_empty() && line != "\0" {
                 if line.contains('<') || line.contains('>') {
                     // Category
-                    let name = &line[1..line.len() - 1];
+                    // strips the surrounding '<' and '>', if the line is long enough to have both
+                    let name = line.get(1..line.len() - 1).unwrap_or_default();
                     current_category = Some(String::from(name));
                     cfg.categories.push(String::from(name));
                 } else if let (Some(category), Some((key, value))) =
